@@ -315,6 +315,19 @@ pub fn check_wire(call: &Call, world: &mut World, ok: bool) -> Vec<Violation> {
         // when the real HTTP client ran: the stream is one HTTP/1.1 GET of /frontpage with the caller's
         // address as Host, the client's identification and negotiation headers, no body, nothing else
         let stream: Vec<u8> = tx.iter().flat_map(|(_, _, d)| d.iter().copied()).collect();
+        // the connection goes to the caller's address and port, whatever host name is given (the name is
+        // for the request only and is never looked up)
+        let stubbed = world.http.is_some();
+        let connects: Vec<SocketAddr> = world.hist.iter().filter_map(|h| if let Hist::TcpConnect { to, .. } = h { Some(*to) } else { None }).collect();
+        let want_addr = SocketAddr::new(call.ip, port);
+        if !stubbed && (connects.is_empty() || connects.iter().any(|a| *a != want_addr)) {
+            v.push(Violation::new(
+                format!("{fam}|connection-destination"),
+                "the HTTP query did not connect to the caller's address and port (and only there)",
+                format!("one connection to {want_addr}"),
+                format!("connections to {connects:?}"),
+            ));
+        }
         if !stream.is_empty() {
             world.stats.probe("http_request_stream_checked");
             let text = String::from_utf8_lossy(&stream).to_string();
